@@ -19,7 +19,7 @@ class Prop(PropBase):
     @classmethod
     def verdict_concerns(cls, v):
         # the wire cases are judged by the terminal oracle, which tags rendering failures as C01
-        return "C19" in v or "C01@" in v
+        return "C19" in v or "C01@" in v or v.startswith("FAIL C10")
 
     @staticmethod
     def cases(tier, rng):
@@ -60,6 +60,23 @@ class Prop(PropBase):
                     d = "5 100 0 0 0 9 0 0 %d %d 0 0 %d %d %d %d" % ((kind, v) + e2)
                     cs.append(Case("T 0 ; we %s ; we %s ; we %s ; we %s" % (a, b, c, d), sweep="wire-effect-transitions",
                                    cfgs=["%d 1 %d 0 5 2" % (k % 3, k % 6)]))
+        # palette colours as the attribute markup spells them: every triple and every shade on either plane, alone and with a
+        # code for the OTHER plane before it in the same element (judged by the markup oracle; its verdicts on these lines
+        # concern C19)
+        from . import markup_gen as MG
+        for r_ in range(6):
+            for g_ in range(6):
+                for b_ in range(6):
+                    for fg in (True, False):
+                        cs.append(MG.spelling_case("E", [[MG.d_high(fg, r_, g_, b_), MG.g_lit(0x61)], [MG.g_lit(0x62)]], sweep="markup-palette"))
+                    if (r_ + g_ + b_) % 3 == 0:
+                        cs.append(MG.spelling_case("E", [[MG.d_high(False, b_, r_, g_), MG.d_high(True, r_, g_, b_), MG.g_lit(0x61)]], sweep="markup-palette"))
+                        cs.append(MG.spelling_case("E", [[MG.d_grey(True, (r_ * 4 + g_) % 24), MG.d_high(False, r_, g_, b_), MG.g_lit(0x61)]], sweep="markup-palette"))
+        for n_ in range(24):
+            for fg in (True, False):
+                cs.append(MG.spelling_case("E", [[MG.d_grey(fg, n_), MG.g_lit(0x61)], [MG.g_lit(0x62)]], sweep="markup-palette"))
+                cs.append(MG.spelling_case("e", [[MG.d_grey(fg, n_), MG.g_lit(0x61)]], sweep="markup-palette"))
+            cs.append(MG.spelling_case("E", [[MG.d_grey(False, 23 - n_), MG.d_grey(True, n_), MG.g_lit(0x61)]], sweep="markup-palette"))
         # the streamed form (operator<<) of every palette colour, low colour and a few true colours, in 12 stream states
         states = [0, 1, 2, 4, 8, 16, 17, 32, 33, 65, 128 + 4, 1 + 4 + 16 + 64 + 128]
         for st in states:
